@@ -61,7 +61,7 @@ fn run_numeric(text: &[u8]) -> (Vec<Result<NumEntry, String>>, End) {
 fn spec_values(spec: ChannelSpec) -> Result<Vec<i64>, String> {
     let mut v = Vec::new();
     for (k, d) in spec.into_iter().enumerate() {
-        if k > 64 {
+        if k > 100_000 {
             return Err("spec iterator does not terminate".into());
         }
         match d {
@@ -302,6 +302,8 @@ fn chan_int() -> impl Strategy<Value = String> {
         1 => (0u32..1000).prop_map(|v| format!("-{v}")),
         1 => (0u32..1000).prop_map(|v| format!("+{v}")),
         1 => (0u32..100).prop_map(|v| format!("00{v}")),
+        // long zero-padded channel numbers (longer than any isize literal)
+        1 => (0u32..100000, 15usize..40, prop_oneof![Just(""), Just("-"), Just("+")]).prop_map(|(v, z, sign)| format!("{sign}{}{v}", "0".repeat(z))),
     ]
 }
 
